@@ -268,6 +268,18 @@ func malformedJSON(rng *rand.Rand, valid []byte, signal, kind string) []byte {
 		return append([]byte{}, valid[:1+rng.Intn(len(valid)-2)]...) // a strict prefix of an object is never a complete document
 	case "not-json":
 		return []byte("this is not json at all")
+	case "empty-body":
+		return []byte{} // zero bytes are a valid protobuf message, but not a JSON document
+	case "whitespace-only":
+		return []byte(" \n\t ")
+	case "trailing-garbage":
+		return append(append([]byte{}, valid...), []byte(" trailing garbage")...)
+	case "two-documents":
+		return append(append([]byte{}, valid...), valid...)
+	case "null":
+		return []byte("null")
+	case "array":
+		return append(append([]byte("["), valid...), ']')
 	case "wrong-type":
 		field := map[string]string{"logs": "resourceLogs", "traces": "resourceSpans", "metrics": "resourceMetrics", "profiles": "resourceProfiles"}[signal]
 		return []byte(fmt.Sprintf(`{"%s": 7}`, field))
